@@ -107,7 +107,7 @@ Next ==
              c' = [stage |-> "case", imp |-> im, style |-> st, alias |-> al]
      \/ /\ mode = "vis" /\ c.stage = "root"
         /\ \E ku \in KindUses, pb \in BOOLEAN, rf \in Refs, ms \in {<<"m">>, <<"p", "q">>} :
-             /\ (rf = "qualified" => ku[2] \in {"lax", "typed", "call", "ctor", "variant"})
+             /\ (rf = "qualified" => ku[2] \in {"call", "ctor"})     \* the docs promise no `M.const` / `M.Enum.V`
              /\ c' = [stage |-> "case", kind |-> ku[1], use |-> ku[2], pub |-> pb, ref |-> rf, msegs |-> ms]
 IsCase(md) == mode = md /\ c.stage = "case"
 
